@@ -37,6 +37,41 @@ def materialise(tree, root):
             raise ValueError(kind)
 
 
+class _OrderedScan:
+    def __init__(self, entries):
+        self._it = iter(entries)
+
+    def __iter__(self):
+        return self
+
+    def __next__(self):
+        return next(self._it)
+
+    def __enter__(self):
+        return self
+
+    def __exit__(self, *a):
+        return False
+
+    def close(self):
+        pass
+
+
+def install_scandir_order(order):
+    """Directory listing order is unspecified by the OS: present real listings in the given name order (the order the symbolic run
+    used), so that an order-dependent counterexample can reproduce on the real tree."""
+    rank = {n: k for k, n in enumerate(order)}
+    real = os.scandir
+
+    def scandir(path='.'):
+        with real(path) as it:
+            ents = list(it)
+        ents.sort(key=lambda e: rank.get(os.fsdecode(e.name), len(rank)))
+        return _OrderedScan(ents)
+    os.scandir = scandir
+    return real
+
+
 def subst(o, root):
     if isinstance(o, str):
         return o.replace('$ROOT', root)
@@ -74,6 +109,7 @@ def run(rep):
         print('replay: wcmatch not imported from /repo')
         return 3
     root = None
+    real_scandir = None
     old = os.getcwd()
     env = {'os': os, 'strip': strip_sep, 'sorted': sorted, 'set': set, 'len': len, 'list': list, 'any': any,
            'all': all, 'bool': bool, 'isinstance': isinstance, 'str': str, 'bytes': bytes, 'tuple': tuple}
@@ -83,6 +119,8 @@ def run(rep):
             materialise(rep['tree'], root)
         if rep.get('chdir') and root:
             os.chdir(root)
+        if rep.get('scandir_order'):
+            real_scandir = install_scandir_order(rep['scandir_order'])
         env['ROOT'] = root
         for st in rep['steps']:
             args = subst(st.get('args', []), root or '')
@@ -104,6 +142,8 @@ def run(rep):
               repr(shown)[:1500])
         return 0 if ok else 1
     finally:
+        if real_scandir is not None:
+            os.scandir = real_scandir
         os.chdir(old)
         if root:
             shutil.rmtree(root, ignore_errors=True)
